@@ -4,6 +4,10 @@ import (
 	"fmt"
 	"go/ast"
 	"go/token"
+	"os"
+	"os/exec"
+	"path/filepath"
+	"runtime"
 	"strings"
 )
 
@@ -402,6 +406,60 @@ func c12Decls(c *Ctx, rel string) ([]string, bool) {
 	return out, true
 }
 
+// c12Goroot: a second context rooted at the source tree of the Go TOOLCHAIN that builds the harness
+// and `rare` (GOROOT/src).  The model mirrors `internal/stringslite.Index`, `bytealg.IndexRabinKarp`,
+// `bytealg.HashStr` and the amd64 constants from there; these are not part of /repo but the model
+// relies on their text, so they are regenerated and pinned like the functions of /repo (a toolchain
+// upgrade that changes the search breaks `stdlib_index_matches_source` instead of passing silently).
+func c12Goroot() *Ctx {
+	root := os.Getenv("GOROOT")
+	if root == "" {
+		root = runtime.GOROOT()
+	}
+	if root == "" {
+		if out, err := exec.Command("go", "env", "GOROOT").Output(); err == nil {
+			root = strings.TrimSpace(string(out))
+		}
+	}
+	if root == "" {
+		return nil
+	}
+	return &Ctx{Repo: filepath.Join(root, "src"), fset: token.NewFileSet(), files: map[string]*ast.File{}, Fingerprints: map[string]string{}}
+}
+
+// c12ConstNat: a package-level `const NAME = <int literal>`.
+func c12ConstNat(c *Ctx, rel, name string) (int64, bool) {
+	if e := c.Var(rel, name); e != nil {
+		return IntLit(e)
+	}
+	return 0, false
+}
+
+func c12EmitStdlib(sb *strings.Builder) {
+	g := c12Goroot()
+	const sl, ba, amd = "internal/stringslite/strings.go", "internal/bytealg/bytealg.go", "internal/bytealg/index_amd64.go"
+	for _, t := range []struct{ def, file, fn string }{
+		{"stdIndexSkeleton", sl, "Index"}, {"stdRabinKarpSkeleton", ba, "IndexRabinKarp"},
+		{"stdHashStrSkeleton", ba, "HashStr"}, {"stdCutoverSkeleton", amd, "Cutover"}, {"stdAmd64InitSkeleton", amd, "init"}} {
+		if g == nil {
+			sb.WriteString(untranslatable(t.def) + "\n")
+			continue
+		}
+		sk, ok := c12Skeleton(g, g.Func(t.file, t.fn))
+		c12EmitList(sb, t.def, sk, ok)
+	}
+	for _, t := range []struct{ def, file, name string }{{"stdPrimeRK", ba, "PrimeRK"}, {"stdMaxBruteForce", amd, "MaxBruteForce"}} {
+		if g != nil {
+			if v, ok := c12ConstNat(g, t.file, t.name); ok && v >= 0 {
+				fmt.Fprintf(sb, "def %s : Nat := %d\n\n", t.def, v)
+				continue
+			}
+		}
+		sb.WriteString(untranslatable(t.def) + "\n")
+	}
+	fmt.Fprintf(sb, "def stdGoVersion : String := %s\n\n", leanStr(runtime.Version()))
+}
+
 func c12EmitList(sb *strings.Builder, name string, l []string, ok bool) {
 	if !ok {
 		sb.WriteString(untranslatable(name) + "\n")
@@ -488,6 +546,7 @@ func init() {
 			dl, ok := c12Decls(c, t.file)
 			c12EmitList(&sb, t.def, dl, ok)
 		}
+		c12EmitStdlib(&sb)
 		if lb, ok := c12LowerByte(c.Func(caseFile, "lowerByte")); ok {
 			sb.WriteString(lb)
 		} else {
